@@ -537,7 +537,7 @@ func (eng) Generate(rng *rand.Rand, tier string) []core.Case {
 	g.parCase(2+rng.Intn(7), 20000)
 	if thorough {
 		for i := 0; i < 6; i++ {
-			g.parCase(2+rng.Intn(31), 30000)
+			g.parCase(2+rng.Intn(15), 30000)
 		}
 	}
 	g.garbageCase(80)
